@@ -130,6 +130,7 @@ def run(ctx, rep):
     from .C17 import chsize_full_size_rule
     chsize_full_size_rule(P, rep, 'R-C12-9')
     nofollow_rule(P, rep, 'R-C12-3n')
+    touch_disk_nsec_rule(P, rep, 'R-C12-5d')
     rep.extra['effects_per_command'] = summary
     rep.extra['write_sites'] = len(sites)
 
@@ -200,3 +201,73 @@ def nofollow_rule(P, rep, rid):
                       function=fn, construct='open flags')
     if n < 6:
         raise AnalysisBroken('data-disk open sites not found (%d)' % n)
+
+
+def touch_disk_nsec_rule(P, rep, rid):
+    """touch may rewrite a time-stamp only when its sub-second part IS zero on disk.  The file is chosen by the recorded value
+    (file->mtime_nsec == 0); a file edited after the last sync has a recorded zero but a real non-zero sub-second part on disk, and
+    randomising it (and aligning the record to it) both changes a time-stamp that was not zero and can hide the edit from the next
+    sync.  The part of state_touch between the first fstat and fmtime is interpreted (E10) for on-disk nanoseconds 0 / 5 / 999999999 /
+    invalid: fmtime is reached iff they are zero (or unknown to the platform)."""
+    from .. import region as RG
+    t = P.fn('state_touch')
+    rep.analysed(t)
+    rep.rule(rid, 'state_touch, from the fstat of the opened file: fmtime is reached iff the on-disk sub-second part is zero (values 0, 5, 999999999, invalid)', 1)
+    fs = list(t.calls('fstat')); fm = list(t.calls('fmtime'))
+    if not fs or len(fm) != 1:
+        raise AnalysisBroken('state_touch: fstat / fmtime not found')
+    first = [c for c in fs if t.dominates(c, fm[0])]
+    if not first:
+        raise AnalysisBroken('state_touch: no fstat dominates fmtime')
+    c0 = first[-1]
+    dst = P.distructs.get('stat'); dts = P.distructs.get('timespec')
+    if not dst:
+        raise AnalysisBroken('layout of struct stat not found')
+    def off(d, name):
+        return [m for m in d['members'] if m['name'] == name][0]['off']
+    O_NS = off(dst, 'st_mtim') + (off(dts, 'tv_nsec') if dts else 8)
+    stp = t.strip(c0.ops[1])
+    if stp[0] != 'i' or t.insts[stp[1]].op != 'alloca':
+        raise AnalysisBroken('state_touch: fstat buffer is not a local')
+
+    class Called(Exception):
+        pass
+    bad = None; n = 0
+    for ns in (0, 5, 999999999, (1 << 64) - 1):
+        def ext(ins, args):
+            cal = ins.callee
+            if cal == 'fmtime':
+                raise Called()
+            return (0,)
+        R = RG.Region(P, extern=ext)
+        R.discover = []
+        R.zero_regions.add(('glob', 'exit_failure'))
+        sb = R.local_by_id(t, stp[1])
+        R.zero_regions.add(sb.reg)
+        R.mem[(sb.reg, O_NS)] = ns
+        for nm in ('i', 'j'):
+            try:
+                nd = RG.P_(('obj', 'node_' + nm), 0); R.zero_regions.add(nd.reg)
+                R.set_local(t, nm, nd)
+            except Exception:
+                pass
+        R.max_steps = 20000
+        # the result of the fstat call itself (success) is stored by the instruction that follows the call: skip it and store 0
+        k0 = c0.idx + 1
+        nxt = t.blocks[c0.block][k0]
+        if nxt.op == 'store' and t.strip(nxt.ops[0]) == ['i', c0.id]:
+            a_ = t.strip(nxt.ops[1])
+            R.mem[(R.local_by_id(t, a_[1]).reg, 0)] = 0
+            k0 += 1
+        try:
+            R.run(t, c0.block, [], start_idx=k0)
+            got = False
+        except Called:
+            got = True
+        except RG.Unsupported as e:
+            raise AnalysisBroken('cannot interpret state_touch after fstat: %s' % e)
+        n += 1
+        want = ns in (0, (1 << 64) - 1)
+        if got != want and bad is None:
+            bad = 'on-disk nanoseconds %s: fmtime is %s' % ('invalid' if ns > 999999999 else ns, 'called -- a non-zero sub-second time-stamp (file changed since the last sync) is overwritten with a random one and the record aligned to it' if got else 'not called -- a zero sub-second part is left alone')
+    rep.check(bad is None, rid, 'state_touch: only time-stamps whose sub-second part is zero on disk are rewritten', c0.loc(), '%d evaluations' % n if bad is None else bad, function='state_touch', construct='on-disk nanoseconds test')
